@@ -59,6 +59,10 @@ func LogicalRightShift8[L SimpleInt](left L, right uint64) L {
 
 type logicalShiftFunc[L SimpleInt] func(left L, right uint64) L
 
+// Shift count used when the requested amount does not fit in 64 bits.
+// No strict integer is wider than 64 bits, so every bit gets shifted out.
+var saturatedShift uint64 = math.MaxUint64
+
 // Bitshift a strict int to the left.
 func StrictIntLogicalLeftBitshift[T StrictInt](left T, right Value, shiftFunc logicalShiftFunc[T]) (T, Value) {
 	if right.IsReference() {
@@ -74,7 +78,7 @@ func StrictIntLogicalLeftBitshift[T StrictInt](left T, right Value, shiftFunc lo
 			if r.IsSmallInt() {
 				rSmall := r.ToSmallInt()
 				if rSmall < 0 {
-					return left >> -rSmall, Undefined
+					return shiftFunc(left, uint64(-rSmall)), Undefined
 				}
 				return left << rSmall, Undefined
 			}
@@ -116,6 +120,9 @@ func StrictIntLogicalLeftBitshift[T StrictInt](left T, right Value, shiftFunc lo
 			return shiftFunc(left, uint64(-r)), Undefined
 		}
 		return left << r, Undefined
+	case UINT_FLAG:
+		r := right.AsUInt()
+		return left << r, Undefined
 	case UINT64_FLAG:
 		r := right.AsInlineUInt64()
 		return left << r, Undefined
@@ -139,7 +146,7 @@ func StrictIntLogicalRightBitshift[T StrictInt](left T, right Value, shiftFunc l
 		switch r := right.AsReference().(type) {
 		case Int64:
 			if r < 0 {
-				return left << -r, Undefined
+				return left << uint64(-r), Undefined
 			}
 			return shiftFunc(left, uint64(r)), Undefined
 		case UInt64:
@@ -148,7 +155,7 @@ func StrictIntLogicalRightBitshift[T StrictInt](left T, right Value, shiftFunc l
 			if r.IsSmallInt() {
 				rSmall := r.ToSmallInt()
 				if rSmall < 0 {
-					return left << -rSmall, Undefined
+					return left << uint64(-rSmall), Undefined
 				}
 				return shiftFunc(left, uint64(rSmall)), Undefined
 			}
@@ -163,31 +170,31 @@ func StrictIntLogicalRightBitshift[T StrictInt](left T, right Value, shiftFunc l
 	case SMALL_INT_FLAG:
 		r := right.AsSmallInt()
 		if r < 0 {
-			return left << -r, Undefined
+			return left << uint64(-r), Undefined
 		}
 		return shiftFunc(left, uint64(r)), Undefined
 	case INT64_FLAG:
 		r := right.AsInlineInt64()
 		if r < 0 {
-			return left << -r, Undefined
+			return left << uint64(-r), Undefined
 		}
 		return shiftFunc(left, uint64(r)), Undefined
 	case INT32_FLAG:
 		r := right.AsInt32()
 		if r < 0 {
-			return left << -r, Undefined
+			return left << uint64(-r), Undefined
 		}
 		return shiftFunc(left, uint64(r)), Undefined
 	case INT16_FLAG:
 		r := right.AsInt16()
 		if r < 0 {
-			return left << -r, Undefined
+			return left << uint64(-r), Undefined
 		}
 		return shiftFunc(left, uint64(r)), Undefined
 	case INT8_FLAG:
 		r := right.AsInt8()
 		if r < 0 {
-			return left << -r, Undefined
+			return left << uint64(-r), Undefined
 		}
 		return shiftFunc(left, uint64(r)), Undefined
 	case UINT_FLAG:
@@ -216,7 +223,7 @@ func StrictIntRightBitshift[T StrictInt](left T, right Value) (T, Value) {
 		switch r := right.AsReference().(type) {
 		case Int64:
 			if r < 0 {
-				return left << -r, Undefined
+				return left << uint64(-r), Undefined
 			}
 			return left >> r, Undefined
 		case UInt64:
@@ -225,12 +232,16 @@ func StrictIntRightBitshift[T StrictInt](left T, right Value) (T, Value) {
 			if r.IsSmallInt() {
 				rSmall := r.ToSmallInt()
 				if rSmall < 0 {
-					return left << -rSmall, Undefined
+					return left << uint64(-rSmall), Undefined
 				}
 				return left >> rSmall, Undefined
 			}
 
-			return 0, Undefined
+			if r.ToGoBigInt().Sign() < 0 {
+				return 0, Undefined
+			}
+			// the sign fills every position
+			return left >> saturatedShift, Undefined
 		default:
 			return 0, Ref(NewBitshiftOperandError(right))
 		}
@@ -240,31 +251,31 @@ func StrictIntRightBitshift[T StrictInt](left T, right Value) (T, Value) {
 	case SMALL_INT_FLAG:
 		r := right.AsSmallInt()
 		if r < 0 {
-			return left << -r, Undefined
+			return left << uint64(-r), Undefined
 		}
 		return left >> r, Undefined
 	case INT64_FLAG:
 		r := right.AsInlineInt64()
 		if r < 0 {
-			return left << -r, Undefined
+			return left << uint64(-r), Undefined
 		}
 		return left >> r, Undefined
 	case INT32_FLAG:
 		r := right.AsInt32()
 		if r < 0 {
-			return left << -r, Undefined
+			return left << uint64(-r), Undefined
 		}
 		return left >> r, Undefined
 	case INT16_FLAG:
 		r := right.AsInt16()
 		if r < 0 {
-			return left << -r, Undefined
+			return left << uint64(-r), Undefined
 		}
 		return left >> r, Undefined
 	case INT8_FLAG:
 		r := right.AsInt8()
 		if r < 0 {
-			return left << -r, Undefined
+			return left << uint64(-r), Undefined
 		}
 		return left >> r, Undefined
 	case UINT_FLAG:
@@ -293,7 +304,7 @@ func StrictIntLeftBitshift[T StrictInt](left T, right Value) (T, Value) {
 		switch r := right.AsReference().(type) {
 		case Int64:
 			if r < 0 {
-				return left >> -r, Undefined
+				return left >> uint64(-r), Undefined
 			}
 			return left << r, Undefined
 		case UInt64:
@@ -302,11 +313,15 @@ func StrictIntLeftBitshift[T StrictInt](left T, right Value) (T, Value) {
 			if r.IsSmallInt() {
 				rSmall := r.ToSmallInt()
 				if rSmall < 0 {
-					return left >> -rSmall, Undefined
+					return left >> uint64(-rSmall), Undefined
 				}
 				return left << rSmall, Undefined
 			}
 
+			if r.ToGoBigInt().Sign() < 0 {
+				// the sign fills every position
+				return left >> saturatedShift, Undefined
+			}
 			return 0, Undefined
 		default:
 			return 0, Ref(NewBitshiftOperandError(right))
@@ -317,31 +332,31 @@ func StrictIntLeftBitshift[T StrictInt](left T, right Value) (T, Value) {
 	case SMALL_INT_FLAG:
 		r := right.AsSmallInt()
 		if r < 0 {
-			return left >> -r, Undefined
+			return left >> uint64(-r), Undefined
 		}
 		return left << r, Undefined
 	case INT64_FLAG:
 		r := right.AsInlineInt64()
 		if r < 0 {
-			return left >> -r, Undefined
+			return left >> uint64(-r), Undefined
 		}
 		return left << r, Undefined
 	case INT32_FLAG:
 		r := right.AsInt32()
 		if r < 0 {
-			return left >> -r, Undefined
+			return left >> uint64(-r), Undefined
 		}
 		return left << r, Undefined
 	case INT16_FLAG:
 		r := right.AsInt16()
 		if r < 0 {
-			return left >> -r, Undefined
+			return left >> uint64(-r), Undefined
 		}
 		return left << r, Undefined
 	case INT8_FLAG:
 		r := right.AsInt8()
 		if r < 0 {
-			return left >> -r, Undefined
+			return left >> uint64(-r), Undefined
 		}
 		return left << r, Undefined
 	case UINT_FLAG:
